@@ -1,4 +1,4 @@
-//@ unit u2_verdicts props C01 C02 C08 C12 also C06 C10 C11 C09
+//@ unit u2_verdicts props C01 C02 C08 C12 also C06 C10 C11 C09 C13
 // Unit U2: the verdict functions of src/database/authorisation_service.rs.
 // The room decision kernel (unit u1_room) is visible here only through the contracts proved there.
 #![feature(allocator_api)]
@@ -703,9 +703,6 @@ pub uninterp spec fn sent_to_writer(m: WriteMessage) -> bool;
 pub struct BufferedDatabaseWriter { x: u8 }
 pub open spec fn wm_deletion(m: WriteMessage) -> DeletionQuery { match m { WriteMessage::Deletion(q, _) => q, _ => arbitrary() } }
 pub open spec fn wm_query(m: WriteMessage) -> MutationQuery { match m { WriteMessage::Mutation(q, _) => q, WriteMessage::RoomMutation(q, _) => q.mutation_query, WriteMessage::MutationStream(q, _) => q, WriteMessage::RoomMutationStream(q, _) => q.mutation_query, _ => arbitrary() } }
-// E8 cut: `for room in rooms { room_list.insert(room.id); }` (the ids of the rooms changed by the mutation)
-#[verifier::external_body]
-pub fn cut_collect_room_ids(room_list: &mut HashSet<Uid>, rooms: Vec<Room>) { unimplemented!() }
 impl BufferedDatabaseWriter {
     #[verifier::external_body]
     pub async fn send(&self, msg: WriteMessage) -> (r: std::result::Result<(), SendErr>) ensures sent_to_writer(msg) { unimplemented!() }
@@ -716,12 +713,14 @@ impl BufferedDatabaseWriter {
 //@ attr #[verifier::exec_allows_no_decreases_clause]
 //@ insert body-start
                 let mut mutation_query = mutation_query0;   // E9: `mut mutation_query` of the match arm
-//@ cut "for room in rooms" => "cut_collect_room_ids(&mut room_list, rooms);"
+//@ attr #[verifier::loop_isolation(false)]
 //@ insert-each before-stmt "let _ = database_writer.send(query).await;"
                             // [only_validated_mutations_reach_the_writer]{C01,C12} a local mutation is handed to the writer only after validate_mutation accepted it, and it is the validated query that is handed over
                             assert(mutation_validated(*auth, wm_query(query)));
                             // [only_signed_mutations_reach_the_writer]{C06} and every row of it was signed with the instance's own key
                             assert(mutation_rows_signed(*auth, wm_query(query)));
+                            // [room_table_untouched_until_the_write_is_acknowledged]{C13,C01} a mutation that changes a room is handed to the writer with the in-memory room table as it was: the new definitions are installed only when the write is acknowledged (the RoomMutationWrite arm, unit u13_events), so a write reported failed leaves no visible effect
+                            assert(*auth == *old(auth));
 //@ spec
         requires rooms_wf(*old(auth)),
 //@ end
@@ -731,12 +730,14 @@ impl BufferedDatabaseWriter {
 //@ attr #[verifier::exec_allows_no_decreases_clause]
 //@ insert body-start
                 let mut mutation_query = mutation_query0;   // E9: `mut mutation_query` of the match arm
-//@ cut "for room in rooms" => "cut_collect_room_ids(&mut room_list, rooms);"
+//@ attr #[verifier::loop_isolation(false)]
 //@ insert-each before-stmt "let _ = database_writer.send(query).await;"
                             // [only_validated_streamed_mutations_reach_the_writer]{C01,C12} a mutation of a mutation stream is handed to the writer only after validate_mutation accepted it
                             assert(mutation_validated(*auth, wm_query(query)));
                             // [only_signed_streamed_mutations_reach_the_writer]{C06} and every row of it was signed with the instance's own key
                             assert(mutation_rows_signed(*auth, wm_query(query)));
+                            // [room_table_untouched_until_the_streamed_write_is_acknowledged]{C13,C01} the same for a mutation of a mutation stream
+                            assert(*auth == *old(auth));
 //@ spec
         requires rooms_wf(*old(auth)),
 //@ end
@@ -793,7 +794,7 @@ impl Room {
 //@ rewrite E16 "\"sys\.[A-Za-z]+\"\.to_string\(\)" => "fmt_stub()" x*
 //@ rewrite E16 "ROOM_ENT\.to_string\(\)" => "fmt_stub()" x*
 //@ rewrite E3 "\.\.Default::default\(\)" => "..Room::default()" x1
-//@ cut "for entry in &mut insert_entity.sub_nodes" => "need_room_admin = self.cut_room_sub_nodes(&mut insert_entity.sub_nodes, &mut room, verifying_key)?;"
+//@ cut "for entry in &mut insert_entity.sub_nodes" => "need_room_admin = self.cut_room_sub_nodes(&mut insert_entity.sub_nodes, &mut room, verifying_key)?;" body-verified
 //@ insert body-start
         proof { assert(<[u8; 16] as PartialEqSpec<[u8; 16]>>::obeys_eq_spec()); }
 //@ spec
